@@ -185,6 +185,7 @@ def parseSteps : List String → Option (List Step)
   | "md" :: x :: r => do some (.setInner (← x.toNat?) :: (← parseSteps r))
   | "ad" :: x :: r => do some (.addKey (← x.toNat?) :: (← parseSteps r))
   | "sh" :: x :: r => do some (.show (← x.toNat?) :: (← parseSteps r))
+  | "mv" :: ip :: i :: r => do some (.setVal (← ip.toNat?) (← i.toNat?) :: (← parseSteps r))
   | _ => none
 
 def parseVals : Nat → List String → Option (List V × List String)
@@ -223,7 +224,8 @@ def handleHist (toks : List String) : String :=
         -- histories are about values of the round-trip domain only
         if !(vals.all JsonData.inRtDom) then "out-of-domain\tout-of-domain" else
         let fp := floatParseOf (.arr vals)
-        let cd := tableCodec (vals.filterMap fun v => Rfc8259.parse (Json.sexpToJson v))
+        -- Go values that can occur: of the values and of the values after `mv`
+        let cd := tableCodec ((vals ++ vals.filterMap JsonHistory.setFirstV).filterMap fun v => Rfc8259.parse (Json.sexpToJson v))
         let m := JsonHistory.modelRun { mp := cd, gj := cd } fp vals steps
         let s := JsonHistory.specRun vals steps
         s!"{showOuts m}\t{showOuts s}"
